@@ -7,6 +7,7 @@ import c06_common as tf
 import lib
 import norm_common as nc
 import normwhole as nw
+import platform_pa as ppa
 
 ID = "C06"
 LEAN_MODULE = "UralModel.Props.C06"
@@ -330,6 +331,10 @@ def cases(rng, tier):
         if rng.random() < 0.3:
             u = tf.apply(u, random_T(rng, u)) or u
         yield _c(u, random_T(rng, u), rng.random() < 0.5, rng.random() < 0.3)
+    # platform_aware=True on facebook / youtube url shapes of the C19 generators (at the end: the
+    # stream above is unchanged): shape clause + the concrete branch of Model/Platform.lean
+    for i, u in enumerate(ppa.c19_urls(rng, tier, n_fb=350 if quick else 8000, n_yt=350 if quick else 8000)):
+        yield _c(u, ["id"], i % 2 == 1, True)
 
 
 def random_T(rng, u):
@@ -401,6 +406,8 @@ def _lines(x, ss, pa):
         out.append({"f": "c06_walk", "host": host})
     # the whole function on the string, the parser being the model's own (nothing shipped)
     out.extend(nw.fp_ops(x, ss, pa))
+    # platform_aware=True: the same with the CONCRETE branch (Model/Platform.lean), no platform table
+    out.extend(ppa.fp_pa_ops(x, ss, pa))
     return out
 
 
@@ -426,6 +433,7 @@ def impl(case):
         for host in line["walk"]:
             out.append(line["walk"][host])
         out.extend(nw.fp_impl(x, case["ss"], case["pa"]))
+        out.extend(ppa.fp_pa_impl(x, case["ss"], case["pa"]))
     return out
 
 
@@ -677,4 +685,6 @@ def classify(case):
         labs.append("swap:%d->%d labels" % (T[1].count(".") + 1, T[2].count(".") + 1))
     labs.append("ss=%d,pa=%d" % (case["ss"], case["pa"]))
     labs.append(nw.label(case["u"], {"platform_aware": case["pa"]}, lower=True))
+    if case["pa"]:
+        labs.append(ppa.label_pa(case["u"], {"platform_aware": True}, lower=True))
     return labs
